@@ -1,6 +1,6 @@
 //verif:pkg .
 //verif:use streams_mcp
-//verif:bound Streamable server: 2 (thorough 3) sessions, each with an open listening stream, without one, or terminated, and 2 (thorough 3) sends each one of {SendNotification to a chosen session, BroadcastNotification, SendFilteredNotification with every subset filter} carrying a symbolic payload string (<= 4 chars): per-stream frame sequence equals the reference sequence, counts equal the number of streams reached; request/answer: a tool called by session A issues ListRoots, then up to 2 answers are posted by session A or B with a symbolic integer id (1..2^53) and distinct payloads; then cancellation or the 30 s timeout (virtual time, engine only); a server-issued request whose frame write fails (at the id line, the data line or the closing blank line; no byte or one byte taken), then a notification and a second request to the same session; legacy SSE server: the same with two sessions opened through GET /sse; stdio server: one session, notifications then a ListRoots from a tool, answer with symbolic id
+//verif:bound Streamable server: 2 (thorough 3) sessions, each with an open listening stream, without one, terminated, or with a stream whose writes fail, and 2 (thorough 3) sends each one of {SendNotification to a chosen session, BroadcastNotification, SendFilteredNotification with every subset filter} carrying a symbolic payload string (<= 4 chars): per-stream frame sequence equals the reference sequence, counts equal the number of streams reached; request/answer: a tool called by session A issues ListRoots, then up to 2 answers are posted by session A or B with a symbolic integer id (1..2^53) and distinct payloads; then cancellation or the 30 s timeout (virtual time, engine only); a server-issued request whose frame write fails (at the id line, the data line or the closing blank line; no byte or one byte taken), then a notification and a second request to the same session; legacy SSE server: the same with two sessions opened through GET /sse; stdio server: one session, notifications then a ListRoots from a tool, answer with symbolic id
 //verif:assume the relative order of a notification and a request sent to the same legacy-SSE or stdio session (two channels drained by select) is not asserted: Go's select choice among ready channels cannot be forced in the native confirmation run; more than 3 sessions / 3 sends and concurrent senders are outside the bound
 package mcp
 
@@ -76,6 +76,7 @@ const (
 	c05Open = iota
 	c05NoStream
 	c05Deleted
+	c05Broken // stream open, but the peer is gone: every Write to it fails
 )
 
 // H_C05_streamable_routing: every send reaches exactly the addressed / selected sessions that have a stream.
@@ -96,11 +97,14 @@ func H_C05_streamable_routing() {
 			vAssume(ids[j] != ids[i])
 		}
 		if i > 0 {
-			state[i] = vChoice("state", 3)
+			state[i] = vChoice("state", 4)
 		}
 		if state[i] != c05NoStream {
 			st[i] = c11Open(srv, ids[i], nil)
 			vAssume(c11Wait(st[i].flushed))
+		}
+		if state[i] == c05Broken {
+			st[i].rec.failFrom = st[i].rec.writes + 1
 		}
 		if state[i] == c05Deleted {
 			rec := newVerifRecorder()
